@@ -452,13 +452,12 @@ class Layout:
     def number(self, text, kind):
         '''Another spelling of the same number. Every Fortran form for
         densities, fractions, surface / TR / inline-transformation parameters
-        and IMP / FILL-array entries of data cards (MIP.mip.datacard.to_float,
-        normalize_float); importances on cell cards ('impnum') go through
-        float() only in the regular stream.'''
+        IMP / FILL-array entries of data cards and importances on cell cards
+        (MIP.mip.datacard.to_float, normalize_float).'''
         rng = self.rng
         if rng.random() >= self.p_num:
             return text
-        new = respell(rng, text, fortran=kind != 'impnum')
+        new = respell(rng, text, fortran=True)
         if new != text:
             self.used.add('number:' + kind)
         return new
@@ -636,39 +635,6 @@ def render(deck, layout):
         layout.used.add('no-final-newline')
         text = text[:-1]
     return text
-
-
-def render_one_fortran(deck, rng, where='cell_importance'):
-    '''Canonical text with exactly ONE importance value of a cell card
-    (IMP:N=1 -> IMP:N=1.0+0) respelled in a form only Fortran reads; None
-    when the deck has no such value.'''
-    spots = []
-    for ci, card in enumerate(deck['cells']):
-        for ti, (_, kind, _) in enumerate(card):
-            if kind == 'impnum':
-                spots.append(('cells', ci, ti))
-    if not spots:
-        return None
-    key, ci, ti = rng.choice(spots)
-    text, kind, glue = deck[key][ci][ti]
-    new = None
-    for _ in range(60):
-        cand = respell(rng, text, True)
-        try:
-            float(cand)
-        except ValueError:
-            new = cand
-            break
-    if new is None:
-        new = (text if '.' in text else text + '.') + rng.choice(['+0', '-0', 'd0', 'D+0'])
-    assert impl.mcnp_float(new) == float(text), (text, new)
-    copy = dict(deck)
-    cards = list(deck[key])
-    card = list(cards[ci])
-    card[ti] = (new, kind, glue)
-    cards[ci] = card
-    copy[key] = cards
-    return render(copy, None)
 
 
 # ---------------------------------------------------------------------------
